@@ -5,5 +5,5 @@ cd $dir || exit 2
 cargo kani -Z stubbing --only-codegen > $dir/cg.txt 2>&1 || { tail -30 $dir/cg.txt; exit 2; }
 grep -rhoE "\bk_[a-z0-9_]+" src | grep -E "$pat" | sort -u > $dir/harnesses.txt
 mkdir -p $dir/res
-cat $dir/harnesses.txt | xargs -P $nj -I{} sh -c "/usr/bin/time -f '%e s %M KB' timeout $to cargo kani -Z stubbing -Z unstable-options --no-memory-safety-checks --no-overflow-checks --harness {} > $dir/res/{}.txt 2>&1"
+cat $dir/harnesses.txt | xargs -P $nj -I{} sh -c "/usr/bin/time -f '%e s %M KB' timeout $to cargo kani -Z stubbing -Z unstable-options -Z restrict-vtable --no-memory-safety-checks --no-overflow-checks --harness {} > $dir/res/{}.txt 2>&1"
 for h in $(cat $dir/harnesses.txt); do printf "%-55s %s\n" $h "$(grep -E 'VERIFICATION:-|Failed Checks|s [0-9]+ KB' $dir/res/$h.txt | tr '\n' ' ' | cut -c1-200)"; done
